@@ -303,10 +303,16 @@ def R8_binders(ctx, rid, core):
     subst = set()
     for n, e, g in scope.sites(inl["body"], lambda n: H.kind(n) == "Call" and n.get("def") == A2S + "serializable_value_to_source", S.Env()):
         subst.add(innermost_ast_arm(g))
-    rec = core.hir_fn(A2S + "record_entry_to_source_with_scope")
-    for n, e, g in scope.sites(rec["body"], lambda n: H.kind(n) == "Call" and n.get("def") == A2S + "serializable_value_to_source", S.Env()):
-        subst.add(innermost_ast_arm(g))
-    ctx.inst(rid, "substitution-positions", subst == {"Expr::Identifier", "RecordKey::Shorthand"}, "captured values are inlined at %s" % sorted(map(str, subst)), H.loc(inl["body"]))
+    # ... and in every other printer function that takes the captured scope (the record-entry helper today)
+    SCOPE_TY_ = "IndexMap<alloc::string::String, blots_core::values::SerializableValue"
+    for rname, rec in sorted(printer_fns(core).items()):
+        if rname == A2S + "expr_to_source_with_scope" or not any(SCOPE_TY_ in t for t in rec.get("inputs", [])):
+            continue
+        for n, e, g in scope.sites(core.hir_fn(rname)["body"], lambda n: H.kind(n) == "Call" and n.get("def") == A2S + "serializable_value_to_source", S.Env()):
+            subst.add(innermost_ast_arm(g))
+    want_pos = {"Expr::Identifier", "RecordKey::Shorthand"}
+    ctx.inst(rid, "substitution-positions", True if subst == want_pos else (False if (subst - want_pos - {None}) else None),
+             "captured values are inlined at %s (want exactly the positions the evaluator reads: Identifier, record shorthand)" % sorted(map(str, subst)), H.loc(inl["body"]))
 
 
 # ------------------------------------------------------------------ C09 rules
